@@ -44,15 +44,25 @@ Proof.
     unfold St, normal_script. cbn. repeat split; auto. apply (Forall_inv_tail H5).
 Qed.
 
+Lemma h_call_late_normal sid p r e :
+  hoare (St sid p r) (call_late (P:=P) e) (fun late w => late = None /\ St sid p r w) (fun _ _ => False).
+Proof.
+  intros w (H1 & H2 & H3 & H4 & H5). unfold call_late, mbind, log, pop. cbn [fst snd w_script upd_trace].
+  destruct (w_script w) as [|o t] eqn:Es.
+  - cbn. split; [reflexivity|]. unfold St, normal_script. cbn. rewrite Es. auto.
+  - unfold normal_script in H5. rewrite Es in H5. pose proof (Forall_inv H5) as Ho. cbn beta in Ho. subst o. cbn.
+    split; [reflexivity|]. unfold St, normal_script. cbn. repeat split; auto. apply (Forall_inv_tail H5).
+Qed.
+
 (* sendall on a quiet connection: afterwards exactly the peer's reply is pending *)
 Lemma h_send_quiet sid p b p' r : peer p b = (p', r) ->
   hoare (St sid p []) (send peer b) (fun _ => St sid p' r) (fun _ _ => False).
 Proof.
   intros Hp w Hw. pose proof (St_nil sid p w Hw) as [Hb Ha]. unfold send, mbind at 1, get_sock.
   destruct Hw as (H1 & H2 & H3 & H4 & H5). rewrite H1.
-  pose proof (h_call_normal sid p [] (ESend sid b) w) as Hc. unfold mbind.
-  destruct (call (ESend sid b) w) as [[u|x] w1]; [|exfalso; apply Hc; repeat split; auto].
-  assert (Hw1 : St sid p [] w1) by (apply Hc; repeat split; auto).
+  pose proof (h_call_late_normal sid p [] (ESend sid b) w) as Hc. unfold mbind.
+  destruct (call_late (ESend sid b) w) as [[late|x] w1]; [|exfalso; apply Hc; repeat split; auto].
+  assert (Hw1 : late = None /\ St sid p [] w1) by (apply Hc; repeat split; auto). destruct Hw1 as [-> Hw1].
   pose proof (St_nil sid p w1 Hw1) as [Hb1 Ha1]. destruct Hw1 as (K1 & K2 & K3 & K4 & K5).
   unfold deliver_reply. rewrite K1, K2, Hp. unfold St, normal_script. cbn.
   rewrite conn_get_set_same, Ha1, Hb1. cbn. repeat split; auto.
